@@ -94,8 +94,14 @@ class Client:
             spa_name = "spa"
         self.taskman = TM()
 
+        self.suspend = None         # event name -> seconds the client's handler stays suspended (None: returns at once)
+
         async def on_event(event, **kw):
             self.events.append((peer.loop.time(), event))
+            if self.suspend is not None:
+                d = self.suspend(event.name)
+                if d is not None:
+                    await asyncio.sleep(d)
         self.spa = GeckoAsyncSpa(CLIENT_ID, GeckoAsyncSpaDescriptor(SPA_ID, "Udp Test Spa", vloop.SIMADDR), self.taskman, on_event)
         self.facade = None
 
